@@ -6,12 +6,15 @@ INVARIANT DlIsLastGivenElseDefault
 INVARIANT PoptIsLastGivenElseCreationDefault
 INVARIANT XoptIsLastGivenElseDefault
 INVARIANT DropOverrideInherits
+INVARIANT LevelIsLastGivenElseDefault
 INVARIANT RecordedCmdlineIsWhatTheUserGave
 PROPERTY FailedStepIsNoop
 PROPERTY EditTouchesNothingPersisted
 PROPERTY WipeIsFreshSetupWithWhatTheUserGave
 PROPERTY ChoiceChangeKeepsValidValue
 PROPERTY NewOptionGetsDefault
+PROPERTY RangeChangeKeepsValidValue
+PROPERTY ProcessedRangeIsTheDeclaredOne
 PROPERTY RemovedOptionVanishes
 PROPERTY OnlyAskedValuesChange
 CHECK_DEADLOCK FALSE
